@@ -190,8 +190,8 @@ func (v *Val) UUIDs() []uint64 {
 type Event struct {
 	Type   string   `json:"type"`
 	Names  []string `json:"names"`
-	Types  []string `json:"types"`  // cadence type IDs of the field values' declared types
-	Values []string `json:"values"` // cadence String() forms
+	Types  []string `json:"types"`         // cadence type IDs of the field values' declared types
+	Values []string `json:"values"`        // cadence String() forms
 	Dyn    []string `json:"dyn,omitempty"` // observed events only: type IDs of the values' own (dynamic) types
 }
 
